@@ -1350,3 +1350,110 @@ func (m *Model) RunUnterminatedAtEnd(s *Sink, rule string) {
 	}
 	s.Note(rule, "scanners with an unterminated verdict", "-", "%d", n)
 }
+
+// RunZeroByteMatch: the byte 0 is the lexer's end-of-input sentinel. A comparison of the current byte with a value
+// taken out of a table (a map lookup without a found test, or a field of such an entry) holds at the end of the input
+// for every key the table does not have — the zero value is the sentinel. A readChar under such a comparison reads
+// past the end: the token's range and the EOF position lie beyond the input.
+func (m *Model) RunZeroByteMatch(s *Sink, rule string) {
+	rc := m.Method("lexer", "Lexer", "readChar")
+	if rc == nil {
+		s.Undecided(rule, "lexer.readChar", "-", "readChar not found")
+		return
+	}
+	var fromTable func(v ssa.Value, d int) *ssa.Lookup
+	fromTable = func(v ssa.Value, d int) *ssa.Lookup {
+		if d > 4 {
+			return nil
+		}
+		switch x := v.(type) {
+		case *ssa.Lookup:
+			if _, isMap := x.X.Type().Underlying().(*types.Map); isMap && !x.CommaOk {
+				return x
+			}
+		case *ssa.Field:
+			return fromTable(x.X, d+1)
+		case *ssa.UnOp:
+			if fa, ok := x.X.(*ssa.FieldAddr); ok && x.Op == token.MUL {
+				if al, isAl := fa.X.(*ssa.Alloc); isAl && al.Referrers() != nil {
+					for _, r := range *al.Referrers() {
+						if st, isSt := r.(*ssa.Store); isSt && st.Addr == ssa.Value(al) {
+							return fromTable(st.Val, d+1)
+						}
+					}
+				}
+			}
+		case *ssa.Convert:
+			return fromTable(x.X, d+1)
+		case *ssa.ChangeType:
+			return fromTable(x.X, d+1)
+		}
+		return nil
+	}
+	n := 0
+	for _, fn := range m.ModFns {
+		if fn.Blocks == nil || shortPkg(fnPkgPath(fn)) != "lexer" {
+			continue
+		}
+		for _, b := range fn.Blocks {
+			iff, ok := b.Instrs[len(b.Instrs)-1].(*ssa.If)
+			if !ok {
+				continue
+			}
+			bo, isBo := iff.Cond.(*ssa.BinOp)
+			if !isBo || (bo.Op != token.EQL && bo.Op != token.NEQ) {
+				continue
+			}
+			var other ssa.Value
+			for _, pr := range [][2]ssa.Value{{bo.X, bo.Y}, {bo.Y, bo.X}} {
+				if _, p, okP := pathOf(pr[0]); okP && p == ".char" {
+					other = pr[1]
+				}
+			}
+			if other == nil {
+				continue
+			}
+			lk := fromTable(other, 0)
+			if lk == nil {
+				continue
+			}
+			// the side on which the bytes are equal
+			eqSucc := b.Succs[0]
+			if bo.Op == token.NEQ {
+				eqSucc = b.Succs[1]
+			}
+			reads := false
+			for _, in := range eqSucc.Instrs {
+				if c, isC := in.(*ssa.Call); isC && c.Call.StaticCallee() == rc {
+					reads = true
+				}
+			}
+			if !reads {
+				continue
+			}
+			// known not to be at the end: a dominating l.char != 0 (or other != 0)
+			safe := false
+			for _, f := range expandFacts(factsAt(b)) {
+				fb, isFB := f.Cond.(*ssa.BinOp)
+				if !isFB || (fb.Op != token.EQL && fb.Op != token.NEQ) || (fb.Op == token.NEQ) != f.Holds {
+					continue
+				}
+				for _, pr := range [][2]ssa.Value{{fb.X, fb.Y}, {fb.Y, fb.X}} {
+					if k, isK := pr[1].(*ssa.Const); isK && k.Value != nil && k.Int64() == 0 {
+						if _, p, okP := pathOf(pr[0]); (okP && p == ".char") || pr[0] == other {
+							safe = true
+						}
+					}
+				}
+			}
+			n++
+			key := fmt.Sprintf("%s|a table entry compared with the current byte is not the end-of-input byte", fnKey(fn))
+			if safe {
+				s.OK(rule, key, m.InstrPos(iff), "under l.char != 0 (or entry != 0)")
+			} else {
+				s.Violation(rule, key, m.InstrPos(iff), "%s compares the current byte with %s, an entry of the table %s looked up without a found test, and reads on when they are equal: for a key the table does not have the entry is 0 — the byte the lexer holds at the end of the input — so at the end of the input one more character is read: the token ends one column past the last byte and the end-of-input token two", fnKey(fn), valueDesc(other), valueDesc(lk.X))
+			}
+		}
+	}
+	s.Note(rule, "table entries compared with the current byte", "-", "%d", n)
+}
